@@ -80,7 +80,7 @@ VALUES = [0, 1, 2, 3, -1, True, False, 1.0, 0.0, 2.0, 0.5, "a", "b", "", "1", No
 NAMES = ["a", "b", "c", "x"]
 val = st.sampled_from(VALUES)
 # "@d": the field's default; "@e": a value equal to but not identical with the default
-opval = st.one_of(st.sampled_from(["@d", "@e"]), val, val, val)
+opval = st.sampled_from(["@d", "@e"] * 2 + VALUES)
 idx = st.integers(0, 40)
 fit = st.sampled_from([True, True, True, False])
 
@@ -95,26 +95,92 @@ DEF_SCENARIOS = [
 ]
 
 
-@st.composite
-def kw_items(draw, max_size=2, min_size=0):
-    # [field selector, value]; selector -1 = unknown field name, else index modulo #fields
-    return draw(
-        st.lists(
-            st.tuples(st.sampled_from([0, 1, 2] * 5 + [-1]), opval).map(list),
-            min_size=min_size, max_size=max_size,
-        )
+def D(**kw):
+    return st.fixed_dictionaries(kw)
+
+
+def J(x):
+    return st.just(x)
+
+
+B = st.booleans()
+I = idx
+CLS = st.tuples(I, I).map(list)  # class selectors, see World.c()
+# [field selector, value]; selector -1 = unknown field name, else index modulo #fields
+KWITEM = st.tuples(st.sampled_from([0, 1, 2] * 5 + [-1]), opval).map(list)
+
+
+def mostly_nonempty(elements, max_size):
+    """lists that are empty about 1 time in 4 (plus hypothesis' own bias to short lists)"""
+    return st.tuples(st.integers(0, 3), st.lists(elements, min_size=1, max_size=max_size)).map(
+        lambda t: t[1] if t[0] else [])
+
+
+KW2 = mostly_nonempty(KWITEM, 2)
+KW3 = mostly_nonempty(KWITEM, 3)
+POS = mostly_nonempty(opval, 3)
+NSS = mostly_nonempty(I, 3)
+NSS1 = st.lists(I, min_size=1, max_size=3)
+KIND2 = st.sampled_from(["ns", "ns", "args"])
+MAYBE_CLS = st.tuples(st.integers(0, 5), CLS).map(lambda t: t[1] if t[0] else "notclass")
+MAYBE_NONE = st.tuples(st.integers(0, 2), CLS).map(lambda t: t[1] if t[0] else None)
+
+OPS = {
+    # bad: "" (well-formed call) | "over" (too many values) | "dup" (value given twice)
+    "ns": D(op=J("ns"), cls=I, sub=B, pos=POS, kw=KW3, bad=st.sampled_from([""] * 10 + ["over", "dup"])),
+    "args": D(op=J("args"), cls=CLS, init=st.sampled_from(["omit", "omit", "none", "obj", "obj", "obj"]),
+              a=I, nss=NSS, fit=fit),
+    "update_ns": D(op=J("update_ns"), a=I, nss=NSS1, fit=fit),
+    "update_f": D(op=J("update_f"), a=I, cls=CLS, kw=KW2, fit=fit),
+    "convert": D(op=J("convert"), a=I, cls=CLS, fit=fit),
+    "or": D(op=J("or"), lk=KIND2, l=I, rk=KIND2, r=I, fit=fit),
+    "ror": D(op=J("ror"), lk=KIND2, l=I, r=I, fit=fit),
+    "pos": D(op=J("pos"), n=I),
+    "ns_update": D(op=J("ns_update"), n=I, kw=KW3),
+    "to_args": D(op=J("to_args"), n=I, cls=MAYBE_NONE, fit=fit),
+    "getitem": D(op=J("getitem"), a=I, cls=MAYBE_CLS, fit=fit),
+    "contains": D(op=J("contains"), a=I, n=I, fit=fit),
+    "iter": D(op=J("iter"), a=I),
+    "eq": D(op=J("eq"), xk=st.sampled_from(["ns", "args"]), x=I, yk=st.sampled_from(["ns", "args", "other"]), y=I),
+    "data": D(op=J("data"), cls=CLS),
+    "data_set": D(op=J("data_set"), d=I, cls=MAYBE_CLS, name=st.sampled_from([0, 1, 0, 1, -1]), fit=fit, v=val),
+    "data_get": D(op=J("data_get"), d=I, cls=MAYBE_CLS, name=st.sampled_from([0, 1, 0, 1, -1]), fit=fit),
+    "data_update": D(op=J("data_update"), d=I, cls=CLS, kw=KW2, fit=fit),
+    "frozen": D(op=J("frozen"), n=I, how=st.sampled_from(["set", "set_unknown", "del"]), name=st.integers(0, 2), v=val),
+    "update_bad": D(op=J("update_bad"), a=I, n=I, cls=CLS, form=st.integers(0, 1)),
+    "define": D(op=J("define"), sc=st.sampled_from(DEF_SCENARIOS), fam=st.sampled_from(["args", "args", "data"]),
+                cls=CLS, cls2=I, variant=st.integers(0, 2), then_ok=B),
+}
+
+
+NCLASSES = st.sampled_from([1, 2, 3, 4, 5, 5, 6, 6, 7, 7, 8, 8])
+PARENT = st.tuples(st.sampled_from([1, 1, 2, 9, 9, 0]), I).map(list)
+# (hypothesis' one_of() ignores repeated branches, so weights go through an explicit selector)
+ARGS_SPEC = st.tuples(
+    st.integers(0, 9),
+    D(fields=st.tuples(st.permutations(NAMES), st.integers(1, 3), st.tuples(val, val, val)).map(
+        lambda t: [[nm, d] for nm, d in zip(t[0][: t[1]], t[2])]), sub=B),
+).map(lambda t: t[1] if t[0] < 8 else None)
+DATA_SPEC = st.tuples(
+    st.integers(0, 9),
+    D(fields=st.tuples(st.permutations(NAMES), st.integers(1, 2)).map(lambda t: list(t[0][: t[1]])), assign=B),
+).map(lambda t: t[1] if t[0] < 4 else None)
+TREE_RAW = NCLASSES.flatmap(
+    lambda n: st.tuples(
+        st.lists(PARENT, min_size=n, max_size=n), st.lists(ARGS_SPEC, min_size=n, max_size=n),
+        st.lists(DATA_SPEC, min_size=n, max_size=n), st.lists(B, min_size=n, max_size=n), val,
     )
+)
 
 
-@st.composite
-def trees(draw):
-    n = draw(st.sampled_from([1, 2, 3, 4, 5, 5, 6, 6, 7, 7, 8, 8]))
+def _tree(raw):
+    """parent selectors -> a valid tree (depth <= 4, branching <= 3 below the root)"""
+    psel, args, data, order, v = raw
+    args = list(args)
     parents, depth, nchild = [], [], []
-    for i in range(n):
-        p = draw(st.sampled_from([i - 1, i - 1, i - 2, 0, -1])) if i else -1
-        p = max(-1, min(p, i - 1))
-        if draw(st.integers(0, 3)) == 0:
-            p = draw(st.integers(-1, i - 1))
+    for i, (how, x) in enumerate(psel):
+        # how: 1/2 -> i-1 / i-2 (chains), 9 -> any earlier class or the root, 0 -> the root
+        p = -1 if (i == 0 or how == 0) else (x % (i + 1)) - 1 if how == 9 else max(-1, i - how)
         while p != -1 and (depth[p] >= 4 or nchild[p] >= 3):
             p = parents[p]
         parents.append(p)
@@ -122,109 +188,28 @@ def trees(draw):
         nchild.append(0)
         if p != -1:
             nchild[p] += 1
-    args, data, order = [], [], []
-    for i in range(n):
-        if draw(st.integers(0, 9)) < 8:
-            k = draw(st.integers(1, 3))
-            names = draw(st.permutations(NAMES))[:k]
-            args.append({"fields": [[nm, draw(val)] for nm in names], "sub": draw(st.booleans())})
-        else:
-            args.append(None)
-        if draw(st.integers(0, 9)) < 4:
-            k = draw(st.integers(1, 2))
-            names = draw(st.permutations(NAMES))[:k]
-            data.append({"fields": list(names), "assign": draw(st.booleans())})
-        else:
-            data.append(None)
-        order.append(draw(st.booleans()))
     if not any(args):
-        args[0] = {"fields": [["a", draw(val)]], "sub": False}
-    return {"parents": parents, "args": args, "data": data, "data_first": order}
+        args[0] = {"fields": [["a", v]], "sub": False}
+    return {"parents": parents, "args": args, "data": list(data), "data_first": list(order)}
 
 
-@st.composite
-def one_op(draw, n, argclasses, kinds):
-    kind = draw(st.sampled_from(kinds))
-    # later classes are deeper on average: bias towards them
-    cls = max(draw(st.integers(-1, n - 1)), draw(st.integers(-1, n - 1)))
-    op = {"op": kind}
-    if kind == "ns":
-        # bad: "" (well-formed call) | "over" (too many values) | "dup" (value given twice)
-        op.update(cls=draw(st.sampled_from(argclasses)), sub=draw(st.booleans()),
-                  pos=draw(st.lists(opval, min_size=draw(st.sampled_from([0, 1, 1, 1])), max_size=3)), kw=draw(kw_items(3)),
-                  bad=draw(st.sampled_from([""] * 10 + ["over", "dup"])))
-    elif kind == "args":
-        init = draw(st.sampled_from(["omit", "omit", "none", "obj", "obj", "obj"]))
-        op.update(cls=cls, init=init, a=draw(idx), fit=draw(fit),
-                  nss=draw(st.lists(idx, min_size=draw(st.sampled_from([0, 1, 1])), max_size=3)))
-    elif kind == "update_ns":
-        op.update(a=draw(idx), nss=draw(st.lists(idx, min_size=1, max_size=3)), fit=draw(fit))
-    elif kind == "update_f":
-        op.update(a=draw(idx), cls=cls, kw=draw(kw_items(2, draw(st.sampled_from([0, 1, 1, 1])))), fit=draw(fit))
-    elif kind == "convert":
-        op.update(a=draw(idx), cls=cls, fit=draw(fit))
-    elif kind == "ror":
-        op.update(lk=draw(st.sampled_from(["ns", "ns", "args"])), l=draw(idx), r=draw(idx), fit=draw(fit))
-    elif kind == "or":
-        op.update(lk=draw(st.sampled_from(["ns", "ns", "args"])), l=draw(idx),
-                  rk=draw(st.sampled_from(["ns", "ns", "args"])), r=draw(idx), fit=draw(fit))
-    elif kind == "pos":
-        op.update(n=draw(idx))
-    elif kind == "ns_update":
-        op.update(n=draw(idx), kw=draw(kw_items(3, draw(st.sampled_from([0, 1, 1, 1])))))
-    elif kind == "to_args":
-        op.update(n=draw(idx), cls=draw(st.one_of(st.none(), st.just(cls))), fit=draw(fit))
-    elif kind == "getitem":
-        op.update(a=draw(idx), cls=draw(st.sampled_from([cls, cls, cls, cls, "notclass"])), fit=draw(fit))
-    elif kind == "contains":
-        op.update(a=draw(idx), n=draw(idx), fit=draw(fit))
-    elif kind == "iter":
-        op.update(a=draw(idx))
-    elif kind == "eq":
-        op.update(xk=draw(st.sampled_from(["ns", "args"])), x=draw(idx),
-                  yk=draw(st.sampled_from(["ns", "args", "other"])), y=draw(idx))
-    elif kind == "data":
-        op.update(cls=cls)
-    elif kind in ("data_set", "data_get"):
-        op.update(d=draw(idx), cls=draw(st.sampled_from([cls, cls, cls, "notclass"])),
-                  name=draw(st.sampled_from([0, 1, 0, 1, -1])), fit=draw(fit))
-        if kind == "data_set":
-            op["v"] = draw(val)
-    elif kind == "data_update":
-        op.update(d=draw(idx), cls=cls, kw=draw(kw_items(2)), fit=draw(fit))
-    elif kind == "frozen":
-        op.update(n=draw(idx), how=draw(st.sampled_from(["set", "set_unknown", "del"])),
-                  name=draw(st.integers(0, 2)), v=draw(val))
-    elif kind == "update_bad":
-        op.update(a=draw(idx), n=draw(idx), cls=cls, form=draw(st.integers(0, 1)))
-    elif kind == "define":
-        op.update(sc=draw(st.sampled_from(DEF_SCENARIOS)), fam=draw(st.sampled_from(["args", "args", "data"])),
-                  cls=cls, cls2=draw(st.integers(-1, n - 1)), variant=draw(st.integers(0, 2)),
-                  then_ok=draw(st.booleans()), fit=draw(fit))
-    return op
+def trees():
+    return TREE_RAW.map(_tree)
+
+
+def op_strategy(kinds):
+    return st.sampled_from(kinds).flatmap(OPS.__getitem__)  # kinds repeats entries as weights
 
 
 def _programs(def_heavy):
     if def_heavy:
         kinds = ["define"] * 6 + ["ns", "args", "or", "update_f", "data", "data_set", "convert"]
-        lo, hi = 3, 10
+        body = st.lists(op_strategy(kinds), min_size=3, max_size=10)
     else:
         kinds = [k for k, w in OP_WEIGHTS.items() for _ in range(w)]
-        lo, hi = 8, 21
-
-    @st.composite
-    def programs(draw):
-        tree = draw(trees())
-        n = len(tree["parents"])
-        argclasses = [i for i, a in enumerate(tree["args"]) if a]
-        prefix = []
-        for _ in range(draw(st.integers(1, 3))):
-            prefix.append(draw(one_op(n, argclasses, ["ns"])))
-        prefix.append(draw(one_op(n, argclasses, ["args"])))
-        ops = draw(st.lists(one_op(n, argclasses, kinds), min_size=lo, max_size=hi))
-        return {"tree": tree, "ops": prefix + ops}
-
-    return programs()
+        body = st.lists(op_strategy(kinds), min_size=8, max_size=21)
+    prefix = st.tuples(st.lists(OPS["ns"], min_size=1, max_size=3), OPS["args"]).map(lambda t: t[0] + [t[1]])
+    return st.tuples(trees(), prefix, body).map(lambda t: {"tree": t[0], "ops": t[1] + t[2]})
 
 
 # ======================================================================== interpreter
@@ -258,7 +243,7 @@ class World:
         self.args_cls = []  # namespace class or None
         self.sub_args_cls = []
         self.data_cls = []
-        self.ns_pool = []  # (obj, model, hash)
+        self.ns_pool = []  # (obj, model, hash, non-default?)
         self.args_pool = []
         self.data_pool = []
         self.iter_order = {}
@@ -276,6 +261,15 @@ class World:
 
     def cls(self, c):
         return R.Renderable if c == ROOT else self.classes[c]
+
+    def c(self, v):
+        """class selector(s) from the case data -> class index in [ROOT, n0); the max of several
+        selectors (later classes are deeper on average); non-numeric selectors pass through"""
+        if isinstance(v, list):
+            return max((x % (self.n0 + 1)) - 1 for x in v)
+        if isinstance(v, int):
+            return (v % (self.n0 + 1)) - 1
+        return v
 
     def cname(self, c):
         return "Renderable" if c == ROOT else f"C{c}"
@@ -354,6 +348,7 @@ class World:
             self.add_class(p, t["args"][i], t["data"][i], bool(t["data_first"][i]))
         self.shape = [list(self.tree.parents), [1 if a else 0 for a in self.tree.args_fields]]
         self.n0 = self.tree.n
+        self.argclasses = [k for k in range(self.n0) if self.tree.has_args(k)]
         self.verify_world("tree")
 
     # -- comparing real objects with the model -----------------------------------------
@@ -429,15 +424,15 @@ class World:
         """Nothing that exists may differ from its model (immutability / no aliasing)."""
         kind = "mutated"
         tree = self.tree
-        for i, (obj, m, h) in enumerate(self.ns_pool):
+        for i, (obj, m, h, _) in enumerate(self.ns_pool):
             self.check_ns(obj, m, f"existing namespace #{i} after {after}", kind)
             if hash(obj) != h:
                 self.fail(f"hash of existing namespace #{i} changed after {after}", kind)
-        for i, (obj, m, h) in enumerate(self.args_pool):
+        for i, (obj, m, h, _) in enumerate(self.args_pool):
             self.check_args(obj, m, f"existing render-args #{i} after {after}", kind)
             if hash(obj) != h:
                 self.fail(f"hash of existing render-args #{i} changed after {after}", kind)
-        for i, (obj, m, _) in enumerate(self.data_pool):
+        for i, (obj, m, _, _) in enumerate(self.data_pool):
             self.check_data(obj, m, f"existing render-data #{i} after {after}", kind)
         interned = getattr(R.RenderArgs, "_interned", None)
         for c in range(tree.n):
@@ -483,25 +478,28 @@ class World:
                     self.check_args(o, tree.default_args(c), f"{what}: shared default set", kind)
 
     # -- pools -----------------------------------------------------------------------
-    def pick(self, pool, i, pred=None):
-        if not pool:
-            return None
-        if pred is not None:  # "fit": only objects satisfying pred, nothing if there is none
+    def pick(self, pool, i, pred=None, rich=False):
+        """i-th (modulo) pool entry; pred ("fit"): only among entries whose model satisfies pred,
+        None if there is none; rich: 2 times in 3 only among entries with non-default content"""
+        cand = pool
+        if pred is not None:
             cand = [e for e in pool if pred(e[1])]
-            return cand[i % len(cand)] if cand else None
-        return pool[i % len(pool)]
+        if rich and i % 3:
+            cand = [e for e in cand if e[3]] or cand
+        return cand[i % len(cand)] if cand else None
 
     def add_ns(self, obj, m):
         self.cross_eq(obj, m)
-        self.ns_pool.append((obj, m, hash(obj)))
+        self.ns_pool.append((obj, m, hash(obj), not M.values_equal(m.values, self.tree.defaults(m.cls))))
 
     def add_args(self, obj, m, opkind):
         self.cross_eq(obj, m)
-        if any(obj is o for o, _, _ in self.args_pool):
+        if any(obj is e[0] for e in self.args_pool):
             self.rec.label("result_is_existing_object")
-        self.args_pool.append((obj, m, hash(obj)))
         mask = self.tree.default_mask(m)
+        self.args_pool.append((obj, m, hash(obj), "n" in mask))
         self.rec.label(f"res_levels:{min(len(mask), 3)}", "res_all_default" if "n" not in mask else "res_some_nondefault")
+        self.rec.label(("res_default:" if "n" not in mask else "res_nondefault:") + opkind)
         if "d" in mask and "n" in mask:
             self.rec.label("mixed_result")
             self.mixed = True
@@ -518,7 +516,7 @@ class World:
         if hash(obj) != h:
             self.fail(f"hash() of {obj!r} is not stable", "hash")
         for pool in (self.ns_pool, self.args_pool):
-            for other, om, oh in pool:
+            for other, om, oh, _ in pool:
                 want = self.tree.equal(m, om)
                 try:
                     got = [obj == other, other == obj, not (obj != other), not (other != obj)]
@@ -592,9 +590,8 @@ class World:
         self.rec.label("skipped_op")
 
     def op_ns(self, op):
-        tree, c = self.tree, op["cls"]
-        if not (0 <= c < tree.n and tree.has_args(c)):
-            return self.skip()
+        tree = self.tree
+        c = self.argclasses[op["cls"] % len(self.argclasses)]
         names, defaults = tree.field_names(c), tree.defaults(c)
         bad = op.get("bad", "")
         pos = list(op["pos"])
@@ -619,21 +616,35 @@ class World:
                 self.fail(f"constructor returned {type(obj).__name__}", "result")
             self.add_ns(obj, m)
 
+    @staticmethod
+    def _index(pool, e):
+        return next(i for i, x in enumerate(pool) if x is e)
+
     def _args_desc(self, e):
-        return f"args#{self.args_pool.index(e)}<{self.cname(e[1].cls)}>"
+        return f"args#{self._index(self.args_pool, e)}<{self.cname(e[1].cls)}>"
 
     def _ns_desc(self, e):
-        return f"ns#{self.ns_pool.index(e)}<{self.cname(e[1].cls)}:{e[1].values!r}>"
+        return f"ns#{self._index(self.ns_pool, e)}<{self.cname(e[1].cls)}:{e[1].values!r}>"
 
     def op_args(self, op):
         tree = self.tree
-        c = max(ROOT, min(op["cls"], tree.n - 1))
+        c = self.c(op["cls"])
         f = op.get("fit")
-        init = None
-        if op["init"] == "obj":
-            init = self.pick(self.args_pool, op["a"], (lambda m: tree.is_sub(c, m.cls)) if f else None)
-        nss = [self.pick(self.ns_pool, i, (lambda m: tree.is_sub(c, m.cls)) if f else None) for i in op["nss"]]
-        nss = [e for e in nss if e is not None]
+        init = self.pick(self.args_pool, op["a"], rich=f) if op["init"] == "obj" else None
+        nss = [e for e in (self.pick(self.ns_pool, i, rich=f) for i in op["nss"]) if e is not None]
+        if f:
+            # fit: drop inputs (last first) until some class is compatible with all of them, and
+            # take the target among those classes
+            while True:
+                items = [e[1] for e in nss] + ([init[1]] if init else [])
+                cand = [k for k in range(ROOT, self.n0) if all(tree.is_sub(k, m.cls) for m in items)]
+                if cand:
+                    break
+                if nss:
+                    nss.pop()
+                else:
+                    init = None
+            c = cand[(c + 1) % len(cand)]
         cls = self.cls(c)
         objs = [e[0] for e in nss]
         if init is not None:
@@ -655,7 +666,7 @@ class World:
 
     def op_update_ns(self, op):
         tree = self.tree
-        a = self.pick(self.args_pool, op["a"])
+        a = self.pick(self.args_pool, op["a"], rich=op.get("fit"))
         if a is None:
             return self.skip()
         pred = (lambda m: tree.is_sub(a[1].cls, m.cls)) if op.get("fit") else None
@@ -673,8 +684,6 @@ class World:
 
     def _rel_cls(self, c, ok):
         """class index c, or (fit) the (c-th modulo) class satisfying ok"""
-        tree = self.tree
-        c = max(ROOT, min(c, tree.n - 1))
         cand = [k for k in range(ROOT, self.n0) if ok(k)]
         if cand:
             return cand[(c + 1) % len(cand)]
@@ -682,10 +691,10 @@ class World:
 
     def op_update_f(self, op):
         tree = self.tree
-        a = self.pick(self.args_pool, op["a"])
+        a = self.pick(self.args_pool, op["a"], rich=op.get("fit"))
         if a is None:
             return self.skip()
-        c = max(ROOT, min(op["cls"], tree.n - 1))
+        c = self.c(op["cls"])
         if op.get("fit"):
             c = self._rel_cls(c, lambda k: tree.is_sub(a[1].cls, k) and tree.has_args(k))
         names, defaults = (tree.field_names(c), tree.defaults(c)) if tree.has_args(c) else ([], ())
@@ -703,7 +712,7 @@ class World:
         n = self.pick(self.ns_pool, op["n"])
         if a is None or n is None:
             return self.skip()
-        c = max(ROOT, min(op["cls"], self.tree.n - 1))
+        c = self.c(op["cls"])
         if op["form"] == 0:
             self.opdesc = f"{self._args_desc(a)}.update({self.cname(c)}, {self._ns_desc(n)})"
             real = lambda: a[0].update(self.cls(c), n[0])
@@ -718,12 +727,17 @@ class World:
 
     def op_convert(self, op):
         tree = self.tree
-        a = self.pick(self.args_pool, op["a"])
+        a = self.pick(self.args_pool, op["a"], rich=op.get("fit"))
         if a is None:
             return self.skip()
-        c = max(ROOT, min(op["cls"], tree.n - 1))
-        if op.get("fit"):
-            c = self._rel_cls(c, lambda k: tree.related(a[1].cls, k))
+        c = self.c(op["cls"])
+        if op.get("fit"):  # a related class: strict ancestor / strict descendant / any related, by turns
+            ac = a[1].cls
+            how = op["a"] % 3
+            c = self._rel_cls(c, lambda k: tree.related(ac, k) and (
+                how == 2 or k != ac and (tree.is_sub(ac, k) if how == 0 else tree.is_sub(k, ac))))
+            if not tree.related(ac, c):
+                c = self._rel_cls(c, lambda k: tree.related(ac, k))
         self.opdesc = f"{self._args_desc(a)}.convert({self.cname(c)})"
         obj, m = self.attempt("convert", lambda: a[0].convert(self.cls(c)), lambda: tree.convert(a[1], c))
         if m is not None:
@@ -738,11 +752,11 @@ class World:
         if lk == "args" and rk == "args":
             rk = "ns"
         pools = {"ns": self.ns_pool, "args": self.args_pool}
-        left = self.pick(pools[lk], op["l"])
+        left = self.pick(pools[lk], op["l"], rich=op.get("fit"))
         if left is None:
             return self.skip()
         pred = (lambda m: tree.related(left[1].cls, m.cls)) if op.get("fit") else None
-        right = self.pick(pools[rk], op["r"], pred)
+        right = self.pick(pools[rk], op["r"], pred, rich=op.get("fit"))
         if right is None:
             return self.skip()
         desc = {"ns": self._ns_desc, "args": self._args_desc}
@@ -805,9 +819,8 @@ class World:
         n = self.pick(self.ns_pool, op["n"])
         if n is None:
             return self.skip()
-        c = op["cls"]
+        c = self.c(op["cls"])
         if c is not None:
-            c = max(ROOT, min(c, tree.n - 1))
             if op.get("fit"):
                 c = self._rel_cls(c, lambda k: tree.is_sub(k, n[1].cls))
         self.opdesc = f"{self._ns_desc(n)}.to_render_args({'' if c is None else self.cname(c)})"
@@ -822,9 +835,8 @@ class World:
         a = self.pick(self.args_pool, op["a"])
         if a is None:
             return self.skip()
-        c = op["cls"]
+        c = self.c(op["cls"])
         if isinstance(c, int):
-            c = max(ROOT, min(c, tree.n - 1))
             if op.get("fit"):
                 c = self._rel_cls(c, lambda k: tree.is_sub(a[1].cls, k) and tree.has_args(k))
             key = self.cls(c)
@@ -910,24 +922,23 @@ class World:
     # -- render data ------------------------------------------------------------------
     def op_data(self, op):
         tree = self.tree
-        c = max(ROOT, min(op["cls"], tree.n - 1))
+        c = self.c(op["cls"])
         self.opdesc = f"RenderData({self.cname(c)})"
         obj, m = self.attempt("data", lambda: R.RenderData(self.cls(c)), lambda: tree.make_data(c))
         self.check_data(obj, m, "new render data")
-        self.data_pool.append((obj, m, None))
+        self.data_pool.append((obj, m, None, False))
 
     def _data_target(self, op):
         tree = self.tree
         if not self.data_pool:
             desc = self.opdesc
-            self.op_data({"cls": op["cls"] if isinstance(op["cls"], int) else ROOT})
+            self.op_data({"cls": op["cls"] if isinstance(op["cls"], (int, list)) else 0})
             self.opdesc = desc
         d = self.pick(self.data_pool, op["d"])
         if d is None:
             return None, None, None
-        c = op["cls"]
+        c = self.c(op["cls"])
         if isinstance(c, int):
-            c = max(ROOT, min(c, tree.n - 1))
             if op.get("fit"):
                 c = self._rel_cls(c, lambda k: tree.is_sub(d[1].cls, k) and tree.has_data(k))
             key = self.cls(c)
@@ -946,7 +957,7 @@ class World:
         if d is None:
             return self.skip()
         name, v = self._dname(c, op["name"]), op["v"]
-        self.opdesc = f"data#{self.data_pool.index(d)}[{self.cname(c) if isinstance(c, int) else 'int'}].{name} = {v!r}"
+        self.opdesc = f"data#{self._index(self.data_pool, d)}[{self.cname(c) if isinstance(c, int) else 'int'}].{name} = {v!r}"
         self.attempt("data_set", lambda: setattr(d[0][key], name, v), lambda: self.tree.data_set(d[1], c, name, v))
 
     def op_data_get(self, op):
@@ -954,7 +965,7 @@ class World:
         if d is None:
             return self.skip()
         name = self._dname(c, op["name"])
-        self.opdesc = f"data#{self.data_pool.index(d)}[{self.cname(c) if isinstance(c, int) else 'int'}].{name}"
+        self.opdesc = f"data#{self._index(self.data_pool, d)}[{self.cname(c) if isinstance(c, int) else 'int'}].{name}"
         got, want = self.attempt("data_get", lambda: (getattr(d[0][key], name),), lambda: (self.tree.data_get(d[1], c, name),))
         if want is not None and not M.same_typed(got[0], want[0]):
             self.fail(f"-> {_show(got[0])}, expected {_show(want[0])}", "data_field")
@@ -965,7 +976,7 @@ class World:
             return self.skip()
         names = self.tree.data_names(c) if self.tree.has_data(c) else []
         kw = self.kw(op["kw"], names, [0] * len(names))
-        self.opdesc = f"data#{self.data_pool.index(d)}[{self.cname(c)}].update(**{kw!r})"
+        self.opdesc = f"data#{self._index(self.data_pool, d)}[{self.cname(c)}].update(**{kw!r})"
         self.attempt("data_update", lambda: d[0][key].update(**kw), lambda: self.tree.data_update(d[1], c, kw))
 
     def op_frozen(self, op):
@@ -994,7 +1005,7 @@ class World:
         fam_err = T.RenderArgsError if fam == "args" else T.RenderDataError
         other_err = T.RenderDataError if fam == "args" else T.RenderArgsError
         has = tree.has_args if fam == "args" else tree.has_data
-        c = max(ROOT, min(op["cls"], tree.n - 1))
+        c = self.c(op["cls"])
         if sc in ("reassoc", "inherit_define", "second", "inherit"):
             # needs a class that already owns a namespace of this family
             cand = [k for k in range(ROOT, tree.n) if has(k)]
@@ -1056,7 +1067,7 @@ class World:
                 self.data_cls[fresh] = nscls
                 tree.data_fields[fresh] = [f for f, _ in fields]
         elif sc == "reassoc":
-            target = new_leaf(max(ROOT, min(op["cls2"], tree.n - 1))) if op["variant"] else self.cls(c)
+            target = new_leaf(self.c(op["cls2"])) if op["variant"] else self.cls(c)
             with_fields = fields if op["variant"] == 2 else ()
             expect_rejected(lambda: self.define_ns(fam, self.uniq("N"), (ns_of(c),), with_fields, target),
                             "re-association of an inheriting namespace class")
